@@ -181,7 +181,7 @@ func e2eExec(c *e2eCase, work string, tr *vTrace, logLines bool) (*e2eResult, ma
 	var pauseMu sync.Mutex
 	pauseStarted, pausedNow := false, false
 	pData, pKeep, dataAfter := 0, 0, 0
-	hooks := &e2eHooks{}
+	hooks := &e2eHooks{chain: e2eChain, uid: e2eChainUID}
 	if c.WatchdogMs > 0 {
 		hooks.watchdog = time.Duration(c.WatchdogMs) * time.Millisecond
 	}
@@ -533,6 +533,10 @@ func e2eProbe(c *e2eCase, work string, tr *vTrace) ([]*e2eMsg, error) {
 }
 
 var e2eProbeSink func(w *e2eWire)
+
+// e2eChain: when set, e2eExec runs the transfer through this chain of real relays
+var e2eChain *e2eRelayChain
+var e2eChainUID int64
 
 func e2ePlanKind(p *e2ePlan) string {
 	switch {
